@@ -41,6 +41,7 @@ func vxHitStep(withOrigin bool, kinds []int) {
 	var sent *http.Response
 	var vo *vxOriginRespT
 	vstatus := 0
+	v304NoStore := false
 	w.origin.script = func(n int, r *http.Request) (*http.Response, error) {
 		vxCover("hit/origin-contacted")
 		// C18: only-if-cached never touches the network
@@ -56,7 +57,12 @@ func vxHitStep(withOrigin bool, kinds []int) {
 		switch kind {
 		case 0: // 304
 			vstatus = 304
-			sent = &http.Response{StatusCode: 304, Header: http.Header{"Date": []string{d}}, Body: &vxBodyT{tag: 1}}
+			// (the 304 may itself say no-store: then nothing of it is written back)
+			if vxLabelOn("C06/") { // (only the C06 runs pay for this case split)
+				v304NoStore = vxBool("v.304.no-store")
+			}
+			sent = &http.Response{StatusCode: 304, Header: http.Header{"Date": []string{d},
+				"Cache-Control": []string{vxSel(v304NoStore, "no-store", "xo-store")}}, Body: &vxBodyT{tag: 1}}
 		case 1: // full cacheable reply
 			vstatus = 200
 			sent = &http.Response{StatusCode: 200, Header: http.Header{"Date": []string{d}, "Cache-Control": []string{"max-age=60"}, vxTagHeader: []string{"origin"}}, Body: &vxBodyT{tag: 2}}
@@ -121,6 +127,7 @@ func vxHitStep(withOrigin bool, kinds []int) {
 		vxCover("hit/stored")
 		vxAssert(calls >= 1 && kind != 3, "C06/stored-without-origin-reply")
 		vxAssert(!q.noStore, "C06/stored-under-request-no-store")
+		vxAssert(!(kind == 0 && v304NoStore), "C06/stored-under-no-store-on-304")
 		if vo != nil {
 			vxAssert(!vxMustNotStore(vo, q.noStore, true), "C06/stored-what-must-not-be-stored")
 		}
@@ -261,8 +268,9 @@ func vxRoundTrip(rt http.RoundTripper, req *http.Request) (resp *http.Response, 
 func VxB_HitNoOrigin() { vxHitStep(false, nil) }
 func VxB_HitStep()     { vxHitStep(true, []int{0, 1, 2, 3}) }
 
-// VxB_HitStore: the validation request is answered by an arbitrary full reply: C06, C19.
-func VxB_HitStore() { vxHitStep(true, []int{4}) }
+// VxB_HitStore: the validation request is answered by an arbitrary full reply or by a
+// 304 (with or without no-store): C06, C19.
+func VxB_HitStore() { vxHitStep(true, []int{4, 0}) }
 
 // VxB_HitFail: the validation fails (error status or transport error): C13.
 func VxB_HitFail() { vxHitStep(true, []int{2, 3}) }
